@@ -8,7 +8,7 @@ from typing import Any, Dict, List
 
 from .. import edits, rb, tlc
 
-CFG = "INIT Init\nNEXT Next\nINVARIANT Holds\nINVARIANT NoDrift\nCHECK_DEADLOCK FALSE\n"
+CFG = "INIT Init\nNEXT Next\nINVARIANT Holds\nINVARIANT NoDrift\nALIAS Small\nCHECK_DEADLOCK FALSE\n"
 
 
 def trace_inputs(tier: str, seed: int) -> List[Dict[str, Any]]:
